@@ -87,6 +87,16 @@ Theorem C16_carousel_valid : forall (c : config) (cl : Z) (rnd : Z -> Z) (h : he
 Proof. exact carousel_valid. Qed.
 Print Assumptions C16_carousel_valid.
 
+(* without that premise the statement is false: the carousel trusts the committed head's certificate.  A view-1
+   block whose certificate names genesis (view 0) with a made-up signature listing replica 77 was accepted by
+   VerifyQuorumCert (genesis shortcut; repaired in cert.Authority by fixes/C16-genesis-qc-signature.patch, which is
+   what discharges the premise), and once committed Carousel.GetLeader(4) names 77 in a 4-replica cluster *)
+Theorem C16_carousel_valid_any_head_refuted :
+  exists c cl rnd h round l, (1 <= c_n c < 2^32)%Z /\ (forall s, 0 <= rnd s)%Z /\ h_qc h = Some [77%N] /\
+    carousel c cl rnd h round = Ok l /\ ~ (1 <= Z.of_N l <= c_n c)%Z.
+Proof. exact carousel_unknown_signer. Qed.
+Print Assumptions C16_carousel_valid_any_head_refuted.
+
 (* the carousel's answers are a function of (n, shared seed, math/rand stream, sequence of (committed
    head, queried view)); the replica's identity and the order in which a certificate lists its
    signers do not matter *)
